@@ -44,7 +44,7 @@ BUDGET = {
     "thorough": dict(cases=6000, shards=16, timeout=5400, time=1500),
 }
 _BASE = ["small", "wide", "lens_mixed", "lm_plain", "saturated", "lm_mixture", "peaky", "wide_lm", "T0",
-         "manual", "uniform", "lm_batch_lens", "f64", "beta0", "wide_sat", "big_working_set"]
+         "manual", "uniform", "lm_batch_lens", "f64", "beta0", "wide_sat", "big_working_set", "long_pow2_vocab"]
 FLOORS = {
     "quick": {
         "events": {"CTCPrefixSearch": 1500, "ctc_prefix_search_advance": 5000,
@@ -194,6 +194,27 @@ def generate(rng, tier, i):
             N = rng.choice([1, 1, 2])
             width = int(math.sqrt(cells / (N * V))) + rng.randint(1, 9)
             logits = _logits(rng, T, N, V, rng.choice([0.5, 1.0, 2.0]))
+    if cls == "long_pow2_vocab":
+        # many frames over a vocabulary whose size is a power of two; near-deterministic frames (so that a narrow
+        # beam follows long hypotheses) with a few frames, mostly late ones, where two labels compete: hypotheses
+        # that share a long beginning and differ near the end
+        V, T, N = rng.choice([8, 16, 16, 32, 64, 256]), rng.randint(14, 26), rng.choice([1, 1, 2])
+        width = rng.randint(2, 8)
+        amb = {rng.randrange(T // 2, T) for _ in range(rng.randint(1, 3))}
+        logits = []
+        for t in range(T):
+            frame = []
+            for n in range(N):
+                row = [round(rng.gauss(0.0, 1.0), 3) for _ in range(V + 1)]
+                top = rng.randrange(V + 1) if rng.random() < 0.8 else V
+                row[top] += 12.0
+                if t in amb:
+                    row[rng.randrange(V)] += 12.0 + rng.choice([-1.0, 0.0, 0.5])
+                frame.append(row)
+            logits.append(frame)
+        if N == 2 and rng.random() < 0.5:
+            lens = [T, rng.randint(T // 2, T)]
+            rng.shuffle(lens)
     return {"class": cls, "T": T, "N": N, "V": V, "width": width, "dtype": dtype, "logits": logits,
             "lens": lens, "lm": lm, "form": form}
 
